@@ -108,6 +108,34 @@ def pinned_bbox_font():
             gl.xMin, gl.yMin, gl.xMax, gl.yMax = otRound(min(xs)), otRound(min(ys)), otRound(max(xs)), otRound(max(ys))
     b2 = io.BytesIO(); g.save(b2); return b2.getvalue()
 
+def cff_index_boundary_fonts(rng, n):
+    """small CFF fonts; the Notice string is sized so that the String INDEX holds exactly 253..257 (and 65533..65537) bytes"""
+    from fontTools.fontBuilder import FontBuilder
+    from fontTools.misc.psCharStrings import T2CharString
+    from fontTools.ttLib import TTFont
+    def build(notice_len, family="Fam"):
+        fb = FontBuilder(1000, isTTF=False); order = [".notdef", "A", "B"]
+        fb.setupGlyphOrder(order); fb.setupCharacterMap({65: "A", 66: "B"})
+        cs = lambda *p_: T2CharString(program=list(p_))
+        chars = {".notdef": cs(500, 0, "hmoveto", "endchar"), "A": cs(0, 0, "rmoveto", 100, 0, 0, 100, -100, 0, "rlineto", "endchar"),
+                 "B": cs(10, 10, "rmoveto", 50, 0, 0, 50, -50, 0, "rlineto", "endchar")}
+        fb.setupCFF("Idx-" + family, {"FullName": family + " Full", "FamilyName": family, "Notice": "n" * notice_len}, chars, {})
+        fb.setupHorizontalMetrics({g: (500, 0) for g in order}); fb.setupHorizontalHeader(ascent=800, descent=-200)
+        fb.setupNameTable({"familyName": family, "styleName": "R"}); fb.setupOS2(); fb.setupPost()
+        b = io.BytesIO(); fb.save(b); return b.getvalue()
+    def string_index_size(data):
+        f = TTFont(io.BytesIO(data)); cff = f["CFF "].cff
+        return sum(len(s_.encode("latin-1")) for s_ in cff.strings.strings)
+    out = []
+    base = string_index_size(build(10)) - 10
+    targets = [255, 254, 256, 253, 257, 65535, 65536, 65534] + [rng.randint(1, 400) for _ in range(max(0, n - 8))]
+    for t in targets[:n]:
+        L = t - base
+        if L < 0: continue
+        try: out.append(("generated-CFF-string-index-%d" % t, build(L)))
+        except Exception: pass
+    return out
+
 def sweeps(tier, rng):
     from fontTools.ttLib import TTFont, newTable
     bins = [p for p in corpus.binaries((".ttf", ".otf", ".woff", ".woff2", ".ttc")) if os.path.getsize(p) < 300000]
@@ -132,6 +160,8 @@ def sweeps(tier, rng):
         try:
             w, nfound = woff_breakeven_font(rng); yield "hand-assembled-woff-breakeven(%d)" % nfound, w, -1
         except Exception: pass
+        # CFF fonts whose String / Name / CharStrings INDEX data lengths sweep across 255 and 65535 (offset size 1 -> 2 -> 3)
+        for name, data in cff_index_boundary_fonts(rng, 12 if tier == "quick" else 60): yield name, data, -1
         # a corpus font with an unknown table transplanted in
         ps = cover(3)
         if ps:
